@@ -322,8 +322,18 @@ def node_run(arg):
             out.update(status="raised", exc=type(ex).__name__, tb=traceback.format_exc()[-2000:],
                        where="construct")
     except Exception as ex:
-        out.update(status="raised", exc=type(ex).__name__, tb=traceback.format_exc()[-2000:],
-                   where="construct")
+        # a lifetime into which the simulator injected ENOSPC may fail with that
+        # error, also when the library wraps it in an exception of its own
+        chain, e2 = [], ex
+        while e2 is not None and len(chain) < 8:
+            chain.append(e2)
+            e2 = e2.__cause__ or e2.__context__
+        if step.get("enospc") is not None and any(
+                isinstance(c, OSError) and c.errno == errno.ENOSPC for c in chain):
+            out["status"] = "enospc"
+        else:
+            out.update(status="raised", exc=type(ex).__name__, tb=traceback.format_exc()[-2000:],
+                       where="construct")
     out["ops"] = [(k, name, rel if rel == "." else "f", d if isinstance(d, (int, str, type(None))) else repr(d))
                   for (k, name, rel, d) in seam.log]
     out["wbytes"] = seam.wbytes
